@@ -88,11 +88,40 @@ fn typed_new(children: &[Spec]) -> Option<ConcatSource> {
   None
 }
 
+/// how == 4: `new` over the maximal prefix of raw leaves as typed items (possibly none), every further
+/// child handed to `add` typed (nested concats are flattened by `add`)
+fn raw_prefix_len(children: &[Spec]) -> usize {
+  children.iter().take_while(|c| matches!(c, Spec::Raw(_) | Spec::RawBytes(_))).count()
+}
+
+fn new_over_raw_prefix(children: &[Spec]) -> ConcatSource {
+  ConcatSource::new(
+    children[..raw_prefix_len(children)]
+      .iter()
+      .map(|c| match c {
+        Spec::Raw(t) => raw_leaf(t),
+        Spec::RawBytes(b) => raw_bytes_leaf(b),
+        _ => unreachable!(),
+      })
+      .collect::<Vec<RawSource>>(),
+  )
+}
+
 pub fn build_concat(how: u8, children: &[Spec]) -> ConcatSource {
   if how == 3 {
     if let Some(c) = typed_new(children) {
       return c;
     }
+  }
+  if how == 4 {
+    let mut c = new_over_raw_prefix(children);
+    for x in &children[raw_prefix_len(children)..] {
+      match x {
+        Spec::Concat { how: h2, children: ch2 } => c.add(build_concat(*h2, ch2)),
+        _ => add_typed(&mut c, x, build(x)),
+      }
+    }
+    return c;
   }
   match how {
     // `new` over *typed* ConcatSource items (flattened by `new` itself) when every child is one
@@ -237,6 +266,25 @@ fn build_concat_observed_with(how: u8, children: &[Spec], observe: &mut dyn FnMu
     if let Some(c) = typed_new(children) {
       return c;
     }
+  }
+  if how == 4 {
+    let mut c = new_over_raw_prefix(children);
+    for x in &children[raw_prefix_len(children)..] {
+      match x {
+        Spec::Concat { how: h2, children: ch2 } => {
+          let inner = build_concat_observed_with(*h2, ch2, observe, stale);
+          c.add(inner)
+        }
+        _ => {
+          let b = build_observed_with(x, observe, stale);
+          add_typed(&mut c, x, b)
+        }
+      }
+      if !stale {
+        observe(&c);
+      }
+    }
+    return c;
   }
   match how {
     3 if !children.is_empty() && children.iter().all(|c| matches!(c, Spec::Concat { .. })) => {
